@@ -1116,7 +1116,11 @@ func Retract(vm *VM, t Term, k Cont, env *Env) *Promise {
 	ks := make([]func(context.Context) *Promise, len(u.clauses))
 	for i, c := range u.clauses {
 		c := c
-		raw := rulify(c.raw, env)
+		cp, err := renamedCopy(c.raw, nil, nil) // The variables of a stored clause are local to it.
+		if err != nil {
+			return Error(err)
+		}
+		raw := rulify(cp, nil)
 		ks[i] = func(_ context.Context) *Promise {
 			return Unify(vm, t, raw, func(env *Env) *Promise {
 				// Removes the very clause it unified with, wherever it is by now, without touching the snapshots of open calls.
@@ -2005,11 +2009,11 @@ func Clause(vm *VM, head, body Term, k Cont, env *Env) *Promise {
 
 	ks := make([]func(context.Context) *Promise, len(u.clauses))
 	for i, c := range u.clauses {
-		cp, err := renamedCopy(c.raw, nil, env)
+		cp, err := renamedCopy(c.raw, nil, nil) // The variables of a stored clause are local to it.
 		if err != nil {
 			return Error(err)
 		}
-		r := rulify(cp, env)
+		r := rulify(cp, nil)
 		ks[i] = func(context.Context) *Promise {
 			return Unify(vm, atomIf.Apply(head, body), r, k, env)
 		}
